@@ -113,9 +113,10 @@ def run(ctx, n):
             ok = last(op["opl"]).startswith("ok")
             x = op["dir"]
             cur = [parse_chain(last(op["stl"][0])), parse_chain(last(op["stl"][1]))]
+            # new in this chain = not in it after the previous call (a released block may come back later)
             newb = [[b for (b, _, _) in cur[d] if b not in seen[d]] for d in (0, 1)]
             for d in (0, 1):
-                seen[d] |= set(newb[d])
+                seen[d] = set(b for (b, _, _) in cur[d])
             nb = [newb[0][0] if newb[0] else 0, newb[1][0] if newb[1] else 0]
             if ok and op["kind"] in ("add", "del", "upd", "mv"):
                 key = int(common.kv(last(op["lkl"]))[1].get("sect", "0"))
